@@ -5,7 +5,7 @@ from ..facts import callee_path
 
 TEXT = ('Structure of the signal flow, not its arithmetic: every scratch buffer lent to a child is accumulated into the '
         'parent and zero-filled before it is reused; each sound/effect/child track has exactly one process call site per '
-        'owner, inside one loop over the owning collection; Mixer processes sub-tracks, then send tracks, then the main '
+        'owner, inside one loop (or iterator consumer) over the owning collection, and that pass lies on every path to a return (except the silent exit of a frozen track); Mixer processes sub-tracks, then send tracks, then the main '
         'track; Track applies gate, children, sounds, effects, spatialisation, fader, sends in this order; sends are fed '
         'from the post-fader buffer; all scratch buffers are sized from internal_buffer_size and children receive '
         'slices of at most that size. Gain values and effect outputs are not decided.')
@@ -146,28 +146,52 @@ def once(F, R):
         key = '%s|%s' % (owner, callee)
         if not R.check(b is not None, 'B.C02.once', 'anchor:' + key, 'not found'):
             continue
-        cs = calls_to(b, callee, suffix=False)
         n += 1
+        pred = (lambda c: (lambda p, t: p == c))(callee)
+        cs = op_sites(F, b, pred)
+        direct = set(x for x, t in calls_to(b, callee, suffix=False))
         ok = len(cs) == 1
         why = '%d call sites of %s in %s::process (each live item must be asked exactly once per chunk)' % (len(cs), callee, owner)
         if ok:
-            ls = b.in_loop(cs[0][0])
-            inner = loop_of(b, cs[0][0])
-            if inner is None:
+            site = cs[0]
+            if site in direct:
+                inner = loop_of(b, site)
+                anchor = inner['header'] if inner else None
+                it = iter_source(b, inner) if inner else '?'
+                outer = [l for l in b.in_loop(site) if inner and l['header'] != inner['header']]
+            else:
+                # the call is made by the closure of an iterator consumer (for_each ...) over the collection
+                anchor = site
+                it = describe(b, b.blocks[site]['term']['args'][0], depth=10)
+                outer = b.in_loop(site)
+            if anchor is None:
                 ok = False
                 why = 'the call is not in a loop over %s' % coll
             else:
                 # the loop iterates the owning collection: the iterator it advances was built from self.<coll>
-                it = iter_source(b, inner)
                 if coll not in it:
                     ok = False
                     why = 'the loop around the call iterates %s, not self.%s' % (it, coll)
                 # no enclosing second loop other than Delay's chunk loop
-                if len(ls) > 1 and 'delay' not in owner:
+                if outer and 'delay' not in owner:
                     ok = False
-                    why = 'the call is nested in %d loops' % len(ls)
+                    why = 'the call is nested in %d loops' % (len(outer) + 1)
+                # the pass over the collection is not skipped: it lies on every path to a return, except the frozen
+                # (not advancing) exit of a track, which returns silence without touching anything
+                if ok and 'delay' not in owner:
+                    silent = set()
+                    adv = calls_to(b, 'sound::PlaybackState::is_advancing')
+                    if adv:
+                        from ..rules import bool_edges
+                        be = bool_edges(b, adv[0][0])
+                        if be:
+                            silent = b.reachable([be[1]], stop=[anchor]) - b.reachable([be[0]], stop=[anchor])
+                    skipped = [r for r in b.return_blocks() if not b.dominates(anchor, r) and r not in silent]
+                    if skipped:
+                        ok = False
+                        why = 'the pass over self.%s can be skipped (a path reaches the return at %s without it): live items are not asked for this chunk' % (coll, b.where(skipped[0]))
         R.check(ok, 'B.C02.once', key, why, detail={'owner': owner, 'callee': callee, 'collection': coll},
-                where=b.where(cs[0][0]) if cs else b.file)
+                where=b.where(cs[0]) if cs else b.file)
     R.floor('B.C02.once', n, 9)
     rb = F.body('backend::renderer::Renderer::process')
     if R.check(rb is not None, 'B.C02.once', 'anchor:Renderer::process', 'not found'):
